@@ -1,3 +1,4 @@
+#![cfg_attr(feature = "pattern", feature(pattern))]
 //! rvharness — drives the real `regress` (built from /repo's working tree with `--cfg regress_verif`)
 //! and writes the line-protocol files that the Lean driver answers as well.
 //!
@@ -6,6 +7,8 @@
 mod ast;
 mod ops_api;
 mod ops_engine;
+#[cfg(feature = "pattern")]
+mod ops_pattern;
 mod report;
 mod rng;
 mod util;
@@ -52,6 +55,8 @@ fn main() {
             let focus = arg(&args, "--focus").expect("--focus");
             ops_engine::engine(&mut rep, &focus, n, seed, thorough)
         }
+        #[cfg(feature = "pattern")]
+        "c20" => ops_pattern::c20(&mut rep, n, seed),
         "c19" => ops_engine::c19(&mut rep, n, seed, thorough),
         "c09" => ops_api::c09(&mut rep, n, seed),
         "c11" => ops_api::c11(&mut rep, &aux, thorough, seed),
